@@ -150,8 +150,8 @@ def make_harness(cname: str, cls: type, alts: dict[str, str], fixed: dict[str, i
                 extra.append(av.values["__dtc_len"].t == 3)
             I.prove("E-accept(in-range-parameters-are-not-refused)",
                     z3.Not(z3.And(ints, recs, *extra)), detail=f"raised {e.exc.cls.__name__}")
-            if not issubclass(e.exc.cls, REFUSAL):
-                I.fail("E-refusal-is-a-value-error", f"raised {e.exc.cls.__name__}")
+            I.prove("E-refusal-is-a-value-error", z3.BoolVal(issubclass(e.exc.cls, REFUSAL)),
+                    f"raised {e.exc.cls.__name__}")
             return
         assert isinstance(obj, VObj) and isinstance(pdu, VBytes)
         view = cs.read_view(I, obj, spec, True)
@@ -457,8 +457,8 @@ def invalid_alfid_harness(cname: str, cls: type, alts: dict[str, str]):
             obj = I.call(cls, *args)
             I.getattr_v(obj, "pdu")
         except PyExc as e:
-            if not issubclass(e.exc.cls, REFUSAL):
-                I.fail("E-refusal-is-a-value-error", f"raised {e.exc.cls.__name__}")
+            I.prove("E-refusal-is-a-value-error", z3.BoolVal(issubclass(e.exc.cls, REFUSAL)),
+                    f"raised {e.exc.cls.__name__}")
             return
         # with a list of length 0 the constructor never looks at the identifier
         lst = args[1]
